@@ -5,4 +5,5 @@ Require Import ExtrOcamlBasic.
 Extraction "../ocaml/tx/model.ml" base_anchor keccak256
   get upd supply builtin_cfg intrinsic_gas create_address transition_db apply_transaction
   process block_valid validate_gas_used accumulate_rewards apply_hf4 issuance refund_amount
-  add_balance set_nonce.
+  add_balance set_nonce
+  apply_transaction_e process_e accumulate_rewards_e finalise_e materialise ghosts is_forked.
